@@ -37,9 +37,10 @@ def cfg_text(c, prune=True, invs=INVS, props=''):
     def sset(xs, q=False):
         return '{' + ', '.join(('"%s"' % x) if q else str(x) for x in xs) + '}'
     return ('SPECIFICATION Spec\nCONSTANTS\n  Streams = %s\n  CbStreams = %s\n  Closers = %s\n  Atomic = %s\n  MaxSend = %d\n'
-            '  MaxPeerClose = %d\n  WithAccept = %s\n  WithFlush = %s\n  MaxOps = %d\n%sINVARIANTS %s\n%sCHECK_DEADLOCK FALSE\n') % (
+            '  MaxPeerClose = %d\n  WithAccept = %s\n  WithFlush = %s\n  MaxOps = %d\n  FixedOpen = %s\n  FixedFlush = %s\n%sINVARIANTS %s\n%sCHECK_DEADLOCK FALSE\n') % (
         sset(c['streams']), sset(c['cb']), sset(c['closers'], True), 'TRUE' if c['atomic'] else 'FALSE', c['maxsend'],
         c['maxpc'], 'TRUE' if c['accept'] else 'FALSE', 'TRUE' if c['flush'] else 'FALSE', c['maxops'],
+        'FALSE' if c.get('prefix') else 'TRUE', 'FALSE' if c.get('prefix') else 'TRUE',
         'CONSTRAINT NoKnownFinding\n' if prune else '', invs, ('PROPERTIES %s\n' % props) if props else '')
 
 
@@ -371,6 +372,11 @@ def run(prop, tier, seed, replay=None):
         r = tlc.run('Lifecycle', 'mc.cfg', timeout=400, workers=2,
                     extra_files={'mc.cfg': cfg_text(C([1], [], ['c1'], F, 0, 0, F, F, 1), False, 'NoRace')})
         fine_out.append(('unpruned-fault', r))
+        # ... and the model of the code BEFORE the fixes a49166e / 075bc66 (FixedOpen = FixedFlush = FALSE): TLC must find the
+        # old classes again (they stay in the spec as regression leads, their witnesses stay in the harness)
+        r = tlc.run('Lifecycle', 'mc.cfg', timeout=400, workers=2,
+                    extra_files={'mc.cfg': cfg_text(dict(C([1], [], ['c1'], F, 0, 0, F, F, 1), prefix=True), False, 'ErrorKnown LaterFail')})
+        fine_out.append(('prefix-model', r))
 
     def gate_thread():
         ws = [w for w in witness_schedules() if w['gate'] in GATED]
@@ -545,8 +551,9 @@ def run(prop, tier, seed, replay=None):
                 m = job_r['schedules'][0]
                 ck.sample({'real_loop_behaviour': brief(m), 'peer': m['peer'], 'survivor': m['role'], 'child_end': m['end']})
     for c, r in fine_out:
-        if c in ('unpruned', 'unpruned-fault'):
-            key = 'design_counterexample_without_pruning' + ('' if c == 'unpruned' else '_fault')
+        if c in ('unpruned', 'unpruned-fault', 'prefix-model'):
+            key = {'unpruned': 'design_counterexample_without_pruning', 'unpruned-fault': 'design_counterexample_without_pruning_fault',
+                   'prefix-model': 'design_counterexample_of_the_pre_fix_model'}[c]
             ck.cov[key] = (r.violation or 'none') + (
                 ' kf=%s' % sorted(r.trace[-1][1].get('kf', [])) if r.violation and r.trace and isinstance(r.trace[-1][1], dict) else '')
             if r.violation and r.trace:
